@@ -131,6 +131,35 @@ TrenchBehaviour(pl, f, kind) ==
                 [op |-> "qtable", h |-> 1, h2 |-> 2, dim |-> 3, props |-> <<PT, PC(1), PTag>>, pos2 |-> <<4, 5, 6>>,
                  twinrel |-> Dec(1, -6), twinabs |-> Dec(1, -3), jitter |-> Dec(1, -7), rows |-> TrenchRows(f)] >>]
 
+(***************************************************************************)
+(* Ridge family: an oceanic plate whose cooling model measures the distance *)
+(* to a mid-ocean ridge made of several pieces joined by transform faults   *)
+(* (oblique to both axes in every frame but the base one), or bent, with    *)
+(* the spreading velocity given per ridge point.  Which ridge piece a point *)
+(* belongs to, its distance and hence its age must move with the world.     *)
+(***************************************************************************)
+RidgeSets == << << << <<100, -400>>, <<300, 300>> >>, << <<600, 450>>, <<700, 1400>> >> >>,
+                << << <<0, -300>>, <<0, 200>> >>, << <<250, 300>>, <<250, 700>> >>, << <<-100, 900>>, <<-100, 1500>> >> >>,
+                << << <<100, -400>>, <<300, 300>>, <<200, 1400>> >> >> >>
+RidgeVels(r) == << <<0, <<FlattenSeq([i \in 1..Len(RidgeSets[r]) |-> [j \in 1..Len(RidgeSets[r][i]) |-> Dec(2 + ((i + j) % 3), -2)]])>>>> >>
+RidgeDoc(f, r, model) ==
+  World(Cartesian,
+        <<Area("oceanic plate", "o", RectF(f, -500, -500, 1300, 1500), 0, 120 * Km,
+               <<   ("model" :> model) @@ ("min depth" :> 0) @@ ("max depth" :> 120 * Km) @@ ("top temperature" :> 273) @@ ("bottom temperature" :> 1600)
+                 @@ ("spreading velocity" :> RidgeVels(r))
+                 @@ ("ridge coordinates" :> [i \in 1..Len(RidgeSets[r]) |-> [j \in 1..Len(RidgeSets[r][i]) |-> XYf(f, RidgeSets[r][i][j][1], RidgeSets[r][i][j][2])]]) >>,
+               <<CUniform(<<1>>, "replace")>>, <<>>, <<>>)>>)
+RidgeRows(f) == LET ps == SetToSeq({-450 + 67 * i : i \in 0..25} \X {-450 + 71 * j : j \in 0..26} \X {20, 70}) IN
+                [k \in 1..Len(ps) |-> LET p == XYf(Identity, ps[k][1], ps[k][2])  q == XYf(f, ps[k][1], ps[k][2]) IN
+                                       <<p[1], p[2], H - ps[k][3] * Km, ps[k][3] * Km, q[1], q[2], H - ps[k][3] * Km>>]
+RidgeBehaviour(r, f, model) ==
+  [id |-> <<"motion-ridge", r, f, model>>, labels |-> <<"motion", "ridge-shapes", model>>,
+   steps |-> << [op |-> "create", h |-> 1, wb |-> RidgeDoc(Identity, r, model)], [op |-> "create", h |-> 2, wb |-> RidgeDoc(f, r, model)],
+                [op |-> "qtable", h |-> 1, h2 |-> 2, dim |-> 3, props |-> <<PT, PC(1), PTag>>, pos2 |-> <<4, 5, 6>>,
+                 twinrel |-> Dec(1, -6), twinabs |-> Dec(1, -3), jitter |-> Dec(1, -7), rows |-> RidgeRows(f)] >>]
+EmitRidges == \A r \in 1..Len(RidgeSets), f \in TrenchFrames, m \in {"half space model", "plate model"} :
+                 PrintT(<<"B", ToJson(RidgeBehaviour(r, f, m))>>)
+
 (* a trench is emitted by its own Finish step, so that a simulation emits the polylines it walked and not every
    candidate extension *)
 VARIABLES frame, pl, done
